@@ -24,10 +24,27 @@ fn built(code: Vec<u8>, eeprom: Vec<u8>) -> Built {
 
 /// (kind, detail) of a violation, or None when the written file reproduces the image exactly
 pub fn check_one(dir: &std::path::Path, id: usize, writer_code: bool, len: usize, pat: u8, other_len: usize) -> Option<(String, String)> {
+    check_one_pre(dir, id, writer_code, len, pat, other_len, 0)
+}
+
+/// `pre`: what is at the path before the write. 0 nothing; 1 a longer valid HEX file (the same
+/// writer's output for a longer image); 2 longer arbitrary text
+pub fn check_one_pre(dir: &std::path::Path, id: usize, writer_code: bool, len: usize, pat: u8, other_len: usize, pre: u8) -> Option<(String, String)> {
     let image = pattern(pat, len);
     let other = pattern(0, other_len);
     let b = if writer_code { built(image.clone(), other) } else { built(other, image.clone()) };
     let path = dir.join(format!("f{}.hex", id));
+    match pre {
+        1 => {
+            let longer = pattern(2, len + 700);
+            let lb = if writer_code { built(longer, vec![]) } else { built(vec![], longer) };
+            let _ = if writer_code { sut::write_code_hex(path.clone(), &lb) } else { sut::write_eeprom_hex(path.clone(), &lb) };
+        }
+        2 => {
+            let _ = std::fs::write(&path, "previous content of this file\n".repeat(len / 8 + 40));
+        }
+        _ => {}
+    }
     let r = if writer_code { sut::write_code_hex(path.clone(), &b) } else { sut::write_eeprom_hex(path.clone(), &b) };
     if let Err(e) = r {
         let _ = std::fs::remove_file(&path);
@@ -64,6 +81,18 @@ pub fn run(tier: Tier) -> i32 {
             }
         }
     }
+    // images only the default device can hold: the switch from segment to linear addressing at
+    // 1 MiB and a few boundaries up to the default flash of 8 MiB
+    let default_flash_bytes = sut::DEFAULT_FLASH_WORDS as usize * 2;
+    let big_ks: Vec<usize> = if tier.thorough() { vec![16, 17, 18, 32, 64, 127, 128] } else { vec![16, 17] };
+    for k in big_ks.iter() {
+        for delta in [-1i64, 0, 1, 16, 17] {
+            let l = (*k as i64 * 65536 + delta) as usize;
+            if l <= default_flash_bytes {
+                lens.push((l, format!("default-device-{}x64K", k)));
+            }
+        }
+    }
     // work items
     let mut work: Vec<(bool, usize, u8, usize, String)> = vec![];
     for (l, class) in lens.iter() {
@@ -93,13 +122,29 @@ pub fn run(tier: Tier) -> i32 {
             );
         }
     });
+    // a path that already holds a longer file (valid HEX or arbitrary text) is rewritten
+    let n_pre = AtomicU64::new(0);
+    let pre_lens: Vec<usize> = (0..=40).chain([100, 599, 600, 65535, 65536, 65537]).collect();
+    let pre_work: Vec<(bool, usize, u8)> = pre_lens.iter().flat_map(|l| [true, false].into_iter().flat_map(move |w| [1u8, 2].into_iter().map(move |p| (w, *l, p)))).collect();
+    pre_work.par_iter().enumerate().for_each(|(i, (writer_code, len, pre))| {
+        n_pre.fetch_add(1, Ordering::Relaxed);
+        evals.fetch_add(1, Ordering::Relaxed);
+        if let Some((kind, detail)) = check_one_pre(&scratch.path, 10_000_000 + i, *writer_code, *len, 0, 0, *pre) {
+            let w = if *writer_code { "code" } else { "eeprom" };
+            rep.violation(
+                &format!("C07/{}/writer={}/path-held={}", kind, w, if *pre == 1 { "longer-hex-file" } else { "longer-text" }),
+                || format!("write_{}_hex of a {}-byte image over a path that already holds a longer file: {}", w, len, detail),
+                || json!({"kind": "hex", "writer": w, "len": len, "pattern": 0, "other_len": 0, "pre_existing": pre, "observed": detail}),
+            );
+        }
+    });
     let distinct_lengths: BTreeSet<usize> = lens.iter().map(|x| x.0).collect();
     rep.guard(distinct_lengths.len() > 650, "fewer than 650 distinct lengths");
     rep.sample(|| json!({"writer": "code", "len": 44, "pattern": "position hash", "other_image_len": 0}));
     rep.sample(|| json!({"writer": "eeprom", "len": 65537, "pattern": "position hash", "other_image_len": 3}));
     rep.sample(|| json!({"writer": "code", "len": largest_flash_bytes, "pattern": "position hash", "other_image_len": 0}));
     rep.assume("CRLF or LF line ends and whitespace-only lines are not records and are tolerated");
-    rep.assume("lengths more than 17 bytes above the largest flash in the device table are outside the statement and are not generated");
+    rep.assume("beyond the largest flash in the device table only selected boundaries are visited (the switch to linear addressing at 1 MiB; thorough: up to the default device's 8 MiB): images 'the assembler can produce' without a device");
     let coverage = cov(json!({
         "evaluations": evals.load(Ordering::Relaxed),
         "distinct_nontrivial": distinct_lengths.len() - 1,
@@ -107,6 +152,8 @@ pub fn run(tier: Tier) -> i32 {
         "exhaustive": true,
         "distinct_lengths": distinct_lengths.len(),
         "image_bytes_compared": bytes_checked.load(Ordering::Relaxed),
+        "rewrites_of_a_path_holding_a_longer_file": n_pre.load(Ordering::Relaxed),
+        "default_device_boundaries_x64K": big_ks,
         "largest_length": largest_flash_bytes,
         "caps_hit": [],
         "trusted_base": ["harness ihex::decode (self-checked on the repository's pinned vectors and on malformed files)"],
@@ -124,7 +171,8 @@ pub fn replay(v: &serde_json::Value) -> i32 {
     let other = v["other_len"].as_u64().unwrap_or(0) as usize;
     println!("write_{}_hex of a {}-byte image (pattern {}, other image {} bytes)", if writer_code { "code" } else { "eeprom" }, len, pat, other);
     println!("recorded : {}", v["observed"]);
-    match check_one(&scratch.path, 0, writer_code, len, pat, other) {
+    let pre = v["pre_existing"].as_u64().unwrap_or(0) as u8;
+    match check_one_pre(&scratch.path, 0, writer_code, len, pat, other, pre) {
         Some((kind, detail)) => {
             println!("now      : {} — {}", kind, detail);
             println!("REPRODUCED (the written file still does not reproduce the image)");
